@@ -6,7 +6,8 @@
      [sni, local, addr, upcn, upsans, uporg, upopt, icls]   (tokens, "none" = absent; upsans a sequence; uporg = the
      upstream certificate has an organization; upopt = the upstream_cert option; icls = class of the requested
      identity, carried through for the witnesses only)
-   Each connection is two critical sections of the real code:
+   A follow-up connection may be `nested`: a second TLS handshake INSIDE an explicit-proxy outer hop (secure web proxy,
+   CONNECT, inner ClientHello) on the same Client object.  Each handshake is two critical sections of the real code:
 
      GetCert(c)  mitmproxy/addons/tlsconfig.py  TlsConfig.get_cert: altnames = upstream CN + upstream SANs (if
                  upstream_cert and a server certificate is known), then SNI or local address, then server address;
@@ -32,15 +33,19 @@ CONSTANTS Envs,      \* set of <<ca, tz>>
           BadIdna,   \* tokens whose text the idna codec rejects
           DnsIp,     \* set of <<d, i>>: token d is the IP literal of token i written as a dNSName (another SAN type,
                      \* same text: as an untyped CN it reads as the address i)
+          KeepOuterSni,   \* named deviation (FALSE = the current code), see SniAfterHello
           LegacyCnRaises, LegacyCritSan   \* named deviations before bf9975be6 / 25ceae060 (FALSE = the current code)
-VARIABLES env, pc, cur, store, n, mon, obs
-vars == <<env, pc, cur, store, n, mon, obs>>
+VARIABLES env, pc, cur, store, n, csni, olocal, mon, obs
+vars == <<env, pc, cur, store, n, csni, olocal, mon, obs>>
 
 NoCur == [c |-> [sni |-> "none", local |-> "none", addr |-> "none", upcn |-> "none", upsans |-> <<>>, uporg |-> FALSE,
-                 upopt |-> FALSE, icls |-> "none"],
+                 upopt |-> FALSE, icls |-> "none", nested |-> FALSE],
           cn |-> "none", alt |-> <<>>]
 
-Init == /\ env \in Envs /\ pc = "idle" /\ cur = NoCur /\ store = {} /\ n = 0
+\* csni   = the client connection's `sni` attribute (connection.Client.sni), which get_cert reads;
+\* olocal = local address of an explicit-proxy outer hop that is still open ("none" otherwise): the next handshake may
+\*          be NESTED in it (TLS-over-TLS after CONNECT) -- same Client object, so csni is history.
+Init == /\ env \in Envs /\ pc = "idle" /\ cur = NoCur /\ store = {} /\ n = 0 /\ csni = "none" /\ olocal = "none"
         /\ mon = MonInit /\ obs = <<>>
 
 Live == mon.bad = <<>>
@@ -52,13 +57,20 @@ Dedup(s, seen) == IF s = <<>> THEN <<>>
                   ELSE <<Head(s)>> \o Dedup(Tail(s), seen \cup {Head(s)})
 Opt(x) == IF x = "none" THEN <<>> ELSE <<x>>
 
-Ident(c) == IF c.sni # "none" THEN c.sni ELSE c.local
+\* layers/tls.py ClientTLSLayer: __init__ of a nested layer resets client.sni (and the other TLS attributes) to None,
+\* a fresh connection starts with None; receive_handshake_data then assigns client_hello.sni (None if absent/invalid).
+\* So whatever csni was, after the hello it is exactly this handshake's SNI.  KeepOuterSni = TRUE names the deviation
+\* "no reset, and a hello without SNI does not overwrite": the outer hop's SNI then survives into the nested handshake.
+SniAfterHello(c) == IF c.sni # "none" THEN c.sni
+                    ELSE IF KeepOuterSni /\ c.nested THEN csni ELSE "none"
+Ident(c) == IF c.sni # "none" THEN c.sni ELSE c.local        \* what the client asked for (ground truth, for the record)
+CodeId(c) == IF SniAfterHello(c) # "none" THEN SniAfterHello(c) ELSE c.local   \* what get_cert reads from client.sni
 UpNames(c) == Opt(c.upcn) \o c.upsans                      \* names of the upstream certificate, if one is known
 \* bf9975be6: an upstream CN the idna codec rejects is ignored (its SANs are still copied)
 UpUsed(c) == (IF c.upcn \in BadIdna /\ ~LegacyCnRaises THEN <<>> ELSE Opt(c.upcn)) \o c.upsans
-AltNames(c) == Dedup((IF c.upopt THEN UpUsed(c) ELSE <<>>) \o <<Ident(c)>> \o Opt(c.addr), {})
+AltNames(c) == Dedup((IF c.upopt THEN UpUsed(c) ELSE <<>>) \o <<CodeId(c)>> \o Opt(c.addr), {})
 \* strings that go through _ip_or_dns_name unguarded (upstream SANs are copied as GeneralName objects, not re-encoded)
-Encoded(c) == (IF c.upopt /\ LegacyCnRaises THEN Opt(c.upcn) ELSE <<>>) \o <<Ident(c)>> \o Opt(c.addr)
+Encoded(c) == (IF c.upopt /\ LegacyCnRaises THEN Opt(c.upcn) ELSE <<>>) \o <<CodeId(c)>> \o Opt(c.addr)
 Raises(c) == \E i \in 1..Len(Encoded(c)) : Encoded(c)[i] \in BadIdna
 RaiseSrc(c) == IF c.upopt /\ c.upcn \in BadIdna THEN "upstream_cn" ELSE "other"
 
@@ -66,6 +78,10 @@ CnTok(t) == IF \E p \in DnsIp : p[1] = t THEN (CHOOSE p \in DnsIp : p[1] = t)[2]
 Pool == IF n = 0 THEN (IF env = MainEnv THEN Conns ELSE ConnsAlt) ELSE Conns2
 GetCert(c) ==
   /\ Live /\ pc = "idle" /\ n < MaxConns /\ c \in Pool
+  /\ c.nested => (olocal # "none" /\ c.local = olocal /\ c.addr # "none")
+  /\ csni' = SniAfterHello(c)
+  \* (an outer hop has no upstream server yet, hence no upstream certificate: only such hops are nested into)
+  /\ olocal' = IF ~c.nested /\ c.addr = "none" /\ c.upcn = "none" /\ c.upsans = <<>> /\ ~Raises(c) THEN c.local ELSE "none"
   /\ n' = n + 1 /\ UNCHANGED <<env, store>>
   /\ IF Raises(c)
        THEN /\ pc' = "idle" /\ cur' = NoCur
@@ -89,10 +105,12 @@ Issue ==
                    allowed |-> Dedup(<<Ident(c)>> \o Opt(c.addr) \o UpNames(c), {}),
                    names |-> (IF cur.cn \in Long THEN <<>> ELSE <<CnTok(cur.cn)>>) \o cur.alt,
                    issuer_ok |-> TRUE, nb |-> (tz - 48) * 3600, na |-> (tz - 48 + 199 * 24) * 3600,
-                   eku_server |-> TRUE, verify |-> IF LegacyCritSan /\ cur.cn \in Long /\ org THEN CritSan ELSE "ok",
+                   eku_server |-> TRUE, verify |-> IF LegacyCritSan /\ cur.cn \in Long /\ org THEN CritSan
+                              ELSE IF ~\E i \in 1..Len(cur.alt) : cur.alt[i] = Ident(c)
+                                   THEN "leaf_certificate_has_no_matching_subjectaltname" ELSE "ok",
                    fresh |-> ~Cached(key),
                    icls |-> c.icls, ca |-> env[1]]>>)
-  /\ pc' = "idle" /\ cur' = NoCur /\ UNCHANGED <<env, n>>
+  /\ pc' = "idle" /\ cur' = NoCur /\ UNCHANGED <<env, n, csni, olocal>>
 
 \* (a constant bound keeps TLC's edge label GetCert(c); the guard c \in Pool is inside the action)
 Next == \/ \E c \in Conns \cup Conns2 : GetCert(c)
